@@ -126,7 +126,7 @@ def build_traces(wd, path, tier, seed):
             x = np.round(x, 6) + rng.choice([0.5e-6, -0.5e-6, 0.0], size=n)       # close to rounding boundaries
         dt = float([10.0 ** rng.uniform(-4, 2), 1.0, 1.5, 10.0, 100.0, 0.01, 0.9999, 0.0001, 2.0][tid % 9])
         dt = min(max(dt, 1e-4), 100.0)
-        label = ["m1", "rec 7 east", "a b  c", "  padded column name", "station 12 EW   ", "x", "D\u00fczce 1999 NS", "\u795e\u6238 EW"][int(rng.integers(8))]
+        label = ["m1", "rec 7 east", "a b  c", "  padded column name", "station 12 EW   ", "x", "D\u00fczce 1999 NS", "\u795e\u6238 EW", "", " ", "   ", "\t"][int(rng.integers(12))]      # incl. no label at all / blanks only
         cls = eqsig.AccSignal if tid % 2 else eqsig.Signal
         if tid % 4 == 3:
             loader.save_values_and_dt(ffp, x if tid % 8 == 3 else x.tolist(), dt, label)     # array-level saver, positional order
